@@ -52,6 +52,12 @@ HARNESSES: Dict[str, dict] = {
         "pre": [], "pubs": [[("c.1", 0)]], "subs": ["c.*"], "drain": ["*"]},
     "H7-one-message-each-two-new-channels": {
         "pre": [], "pubs": [[("c.1", 0)], [("c.2", 0)]], "subs": ["c.*"], "drain": ["*"]},
+    # subscriptions opened BEFORE any matching channel exists and iterated after the publishers are done: a subscription is a
+    # live view of the transport — whatever matches when it is iterated is delivered through it, nothing is left for a later one
+    "H9-subscription-opened-before-channels-exist": {
+        "pre": [("d.1", 0)], "pubs": [[("c.1", 0), ("c.1", 1)], [("c.2", 0), ("c.1", 0)]], "subs": [], "preopen": ["c.*", "c.2"], "drain": ["*"]},
+    "H10-preopened-exact-and-concurrent-subscriber": {
+        "pre": [], "pubs": [[("c.1", 0)], [("c.1", 0)]], "subs": ["c.?"], "preopen": ["c.1"], "drain": ["*"]},
 }
 
 
@@ -67,6 +73,7 @@ def run_harness(name: str, prefix: List[int]) -> sched.Execution:
             t.publish(ch, data=(ch, "pre", seq), context=None)
             published.append((ch, "pre", seq))
         consumed: Dict[str, List[Any]] = collections.OrderedDict()
+        preopened = [(pat, t.subscribe(pat)) for pat in h.get("preopen", [])]
         tid = 0
         for pi, script in enumerate(h["pubs"]):
             def pub(script=script, pi=pi):
@@ -88,6 +95,8 @@ def run_harness(name: str, prefix: List[int]) -> sched.Execution:
         x = s.run()
         _CUR[0] = None
         if not x.deadlock:
+            for oi, (pat, subscription) in enumerate(preopened):
+                consumed[f"O{oi}:{pat}"] = [m.data for m in subscription]
             for di, pat in enumerate(h["drain"]):
                 consumed[f"D{di}:{pat}"] = [m.data for m in t.subscribe(pat)]
         x.obs = {"published": published, "consumed": {k: list(v) for k, v in consumed.items()},
@@ -117,6 +126,15 @@ def judge(x: sched.Execution) -> Optional[Tuple[str, str]]:
             if last.get((ch, who), -1) >= seq:
                 return ("out-of-order", f"consumer {consumer} received {who}'s messages on {ch} out of publication order: {msgs}")
             last[(ch, who)] = seq
+    # what a later, fresh subscription still finds although an earlier-opened matching subscription was iterated to exhaustion
+    opened = [c.split(":", 1)[1] for c in o["consumed"] if c.startswith("O")]
+    for consumer, msgs in o["consumed"].items():
+        if consumer.startswith("D"):
+            for m in msgs:
+                hit = [p for p in opened if fnmatch.fnmatch(tuple(m)[0], p)]
+                if hit:
+                    return ("subscription-misses-matching-message",
+                            f"message {tuple(m)} was queued when the subscription(s) {hit} (opened before its channel existed) were iterated to exhaustion, yet only a later subscription received it")
     lost = pub - got
     dup = got - pub
     if lost:
@@ -159,12 +177,13 @@ def check(tier: str, seed: int) -> Result:
     if tier == "quick":
         plan = [("H1-two-publishers-new-channel", 2), ("H2-publishers-and-subscriber", 1), ("H3-routing-two-channels", 1),
                 ("H4-existing-channel", 1), ("H6-two-subscribers", 1), ("H7-one-message-each-two-new-channels", 1),
-                ("H8-one-publisher-one-subscriber", 2)]
+                ("H8-one-publisher-one-subscriber", 2), ("H9-subscription-opened-before-channels-exist", 1), ("H10-preopened-exact-and-concurrent-subscriber", 1)]
         cap = 400000
     else:
         plan = [("H1-two-publishers-new-channel", 3), ("H2-publishers-and-subscriber", 3), ("H3-routing-two-channels", 2),
                 ("H4-existing-channel", 3), ("H5-three-publishers", 2), ("H6-two-subscribers", 2),
-                ("H7-one-message-each-two-new-channels", 3), ("H8-one-publisher-one-subscriber", 3)]
+                ("H7-one-message-each-two-new-channels", 3), ("H8-one-publisher-one-subscriber", 3),
+                ("H9-subscription-opened-before-channels-exist", 2), ("H10-preopened-exact-and-concurrent-subscriber", 3)]
         cap = 3000000
     jobs = []
     per: Dict[str, dict] = {}
